@@ -7,7 +7,7 @@ from .fam_fe import Fe, FeTrunc
 from .fam_sess import Sess
 from .fam_tx import Tx
 from .fam_proxy import Fsrv, Proxy, Psess, ProxyTrunc
-from .fam_dmn import Dmn
+from .fam_dmn import Dmn, DmnReplies
 from .fam_shut import Shut
 from .fam_kern import Kern
 from .fam_race import Race
@@ -63,7 +63,7 @@ BE_RULE = ("family be: request histories fed to the real BackendReqHandler by a 
 
 reg(id="C04", props="Props/C04.v", proof_files=["Proofs/BeProofs.v", "Proofs/TableProofs.v"], families=[Be()],
     rule=BE_RULE, trusted_base=BE_TB, assumptions=BE_ASSUME)
-reg(id="C07", props="Props/C07.v", proof_files=["Proofs/BeProofs.v", "Proofs/TableProofs.v", "Proofs/FeProofs.v"], families=[Be(), Fe()],
+reg(id="C07", props="Props/C07.v", proof_files=["Proofs/BeProofs.v", "Proofs/TableProofs.v", "Proofs/FeProofs.v"], families=[Be(), Fe(), Proxy()],
     rule=BE_RULE + " || " + FE_RULE, trusted_base=BE_TB + ["Spec/Gates.v: operation -> gating feature table"], assumptions=BE_ASSUME)
 reg(id="C09", props="Props/C09.v", proof_files=["Proofs/BeProofs.v"], families=[Be(), Fsrv(), Dmn()],
     rule=BE_RULE + "; descriptors are distinct memfds identified by inode; leak = known inodes still open after dropping server, handler state and peer, plus growth of /proc/self/fd"
@@ -90,7 +90,7 @@ reg(id="C01", props="Props/C01.v", proof_files=["Proofs/WireProofs.v", "Proofs/C
     "accepts k bytes: the descriptors must ride on the first byte that reaches the wire", trusted_base=FE_TB + BE_TB, assumptions=BE_ASSUME)
 reg(id="C02", props="Props/C02.v", proof_files=["Proofs/FeProofs.v", "Proofs/BeProofs.v", "Proofs/TableProofs.v", "Proofs/CodecProofs.v", "Proofs/E2EProofs.v", "Proofs/TxSpecProofs.v"], families=[Sess(), Fe(), Be()],
     rule=SESS_RULE + " || " + FE_RULE + " || " + BE_RULE, trusted_base=FE_TB + BE_TB, assumptions=BE_ASSUME)
-reg(id="C03", props="Props/C03.v", proof_files=["Proofs/FeProofs.v", "Proofs/BeProofs.v"], families=[Sess(), Fe(), Be()],
+reg(id="C03", props="Props/C03.v", proof_files=["Proofs/FeProofs.v", "Proofs/BeProofs.v"], families=[Sess(), Fe(), Be(), DmnReplies()],
     rule=SESS_RULE + " || " + FE_RULE + " || " + BE_RULE, trusted_base=FE_TB + BE_TB, assumptions=BE_ASSUME)
 PX_RULE = ("family fsrv: request streams fed to the real FrontendReqHandler by a raw peer (all ten backend-request codes, valid and invalid UUIDs / "
            "mapping descriptors, NEED_REPLY and REPLY bits, 0..33 descriptors, grammar-aware mutations) with scripted handler results (0, non-zero, "
